@@ -191,6 +191,18 @@ CHECKS = {
               "extrude, thicken evaluated against the object / inputs."),
         note=TB + " C15: sections are taken in open (clamped) directions; periodic directions may only be free.",
         design='DESIGN.md section 8, C15'),
+    'C16': dict(
+        engine='measures',
+        technique='Coq proof (telescoping antiderivative formula + Coquelicot is_derive, Frenet algebra, rotation/scaling laws of the integrands) + differential run of integrate()/center() vs the extracted exact model + invariance checks against heavily refined references',
+        text=("PARTIAL proof level. Theorems in Properties/C16.v: the function BSplineBasis.integrate evaluates, (k_{i+q+1}-k_i)/(q+1) * sum_{j>=i} B_{j,q+1}, has derivative recurrence telescoping to "
+              "B_{i,q}, and that recurrence is the analytic derivative inside every open knot span; tangent, binormal and normal as computed are orthonormal; the rotation matrix regenerated from "
+              "the source keeps the squared length of every vector and uniform scaling multiplies the length/area/volume integrands by s, s^2, s^3 at every quadrature point; scaling laws of "
+              "curvature and torsion. Not proved (L2 only): the fundamental theorem of calculus step across knots, exactness of Gauss-Legendre quadrature, invariance under knot insertion / order "
+              "elevation / splitting (to quadrature accuracy), convergence to the analytic values. Correspondence: L1 integrate() on random sub-intervals and center() vs the extracted exact "
+              "model; L2 measures and centres before/after re-representation (heavily refined references must agree), reversal/swap/rigid motion (exact), scaling (proper power), exactness for "
+              "polynomial integrands, curvature/torsion scalar and vector forms vs the defining formulas, Frenet orthonormality, analytic circle/disc/cylinder/sphere/torus values under refinement."),
+        note=TB + " C16: numpy's Gauss-Legendre nodes/weights and sqrt are outside the model.",
+        design='DESIGN.md section 8, C16'),
 }
 
 PENDING_REASON = "not claimed in this revision: model/theorems for this property are still being built (see DESIGN.md section 8 for the plan)"
